@@ -23,7 +23,7 @@ ASSUMPTIONS = ["reference operations in refmodel.py are the executable reading o
                "pool shim M1 with shuffled schedules", "user recipes are pure functions of the box"]
 REQUIRED_OBS = {"steps": 70, "depth>=2": 30, "depth>=3": 6, "op:colander": 15, "op:chef": 20,
                 "op:combine_sibling": 10, "op:combine_ancestor": 3, "after_level_drop": 2,
-                "from_chk2plt": 1, "identity_checks": 2, "cookback_checks": 5}
+                "from_chk2plt": 1, "identity_checks": 2, "cookback_checks": 5, "final_outputs_consumed": 30}
 TIMEOUT = {"quick": 900, "thorough": 3600}
 KINDS = ["colander", "chef", "combine_sibling", "combine_ancestor"]
 
@@ -221,3 +221,48 @@ def run_case(case, work, rec):
         prev_kind = kind
         cur, exp = out, new_exp
         ancestors.append((cur, exp))
+    # the final output is a valid input for the reading tools too (reader, whip, pestle, mandoline, menu)
+    if exp.ndims == 3:
+        mm = refmodel.to_model(exp)
+        fidx = rng.randrange(len(exp.names))
+        fname = exp.names[fidx]
+        key = (digest, tuple(case["history"]), case["sel_seed"], "consumers")
+        probs = []
+        pools.CTL.reset(mode="inproc", seed=rng.randrange(10 ** 6))
+        try:
+            pck = PlotfileCooker(cur, maxmins=True, ghost=True)
+            lv = rng.randrange(mm.nlevels); bi = rng.randrange(len(mm.boxes[lv]))
+            idx = [tuple(int(v) for v in a) for a in pck.cells[lv]["indexes"][bi]]
+            want = {b.key(): k for k, b in enumerate(mm.boxes[lv])}[(idx[0], idx[1])]
+            if not refparse.biteq(pck[fname][lv][bi], mm.data[lv][want][..., fidx]):
+                probs.append("reader returns other data than the pipeline result")
+            wout = os.path.join(work, "final_ugrid.npy")
+            with common.argv(["whip", "-v", fname, "-y", "-o", wout, cur]):
+                common.repo_module("amr_kitchen.whip.cli").main()
+            if not refparse.biteq(np.load(wout), gen.covering(mm, fidx)):
+                probs.append("whip's uniform grid of the final plotfile is not the covering grid of the expected contents")
+            from amr_kitchen.pestle.pestle import volume_integral
+            got = volume_integral(pck, fname)
+            tot = mag = 0.0
+            for l2 in range(mm.nlevels):
+                dV = float(np.prod(mm.dx[l2]))
+                for b2 in range(len(mm.boxes[l2])):
+                    t = mm.data[l2][b2][..., fidx][gen.uncovered_mask(mm, l2, b2, mm.nlevels - 1)] * dV
+                    tot += float(np.sum(t)); mag += float(np.sum(np.abs(t)))
+            finite = np.isfinite(tot) and np.isfinite(mag)
+            if finite and not abs(got - tot) <= 1e-10 * mag:
+                probs.append(f"pestle integral of the final plotfile {got!r} != {tot!r}")
+            from amr_kitchen.mandoline import Mandoline
+            sl = Mandoline(cur, fields=[fname], serial=True, verbose=0).slice(normal=2, pos=None, fformat="return")
+            if np.asarray(sl[fname]).shape != (mm.grid_sizes[-1][1], mm.grid_sizes[-1][0]):
+                probs.append("mandoline slice of the final plotfile has the wrong shape")
+            with common.argv(["menu", cur, "-m"]):
+                common.repo_module("amr_kitchen.menu.cli").main()
+        except (Exception, SystemExit) as e:
+            probs.append(f"a reading tool raised {type(e).__name__} on the pipeline output: {str(e)[:150]}")
+        rec.count("final_outputs_consumed")
+        if probs:
+            rec.violation(f"pipeline output is not a valid input for the reading tools ({probs[0][:160]}); history {case['history']}",
+                          key=key, witness={"history": case["history"], "problems": probs[:4], "field": fname})
+        else:
+            rec.ok(key, len(case["history"]) >= 2)
